@@ -40,6 +40,7 @@ type job struct {
 	ctx     ctxSpec
 	sibling *plan // non-nil: sibling job (pl = at, sibling = past)
 	pastFst bool
+	orphans bool   // sibling job: both candidates are delivered before their parent
 	name    string // context name
 }
 
@@ -80,7 +81,7 @@ func contextsFor(cs *Case, idx int, thorough bool) []ctxSpec {
 
 func runJob(j job) (result, string) {
 	if j.sibling != nil {
-		res, who := runSibling(j.pl, j.sibling, j.pastFst, j.ctx.Cache)
+		res, who := runSibling(j.pl, j.sibling, j.pastFst, j.orphans, j.ctx.Cache)
 		return res, who
 	}
 	return runContext(j.pl, j.ctx), ""
@@ -226,7 +227,9 @@ func main() {
 		}
 		jobs = append(jobs,
 			job{pl: at, sibling: past, pastFst: true, ctx: ctxSpec{kTip, bigCache}, name: "sibling-past-first/cL"},
-			job{pl: at, sibling: past, pastFst: false, ctx: ctxSpec{kTip, 0}, name: "sibling-at-first/c0"})
+			job{pl: at, sibling: past, pastFst: false, ctx: ctxSpec{kTip, 0}, name: "sibling-at-first/c0"},
+			job{pl: at, sibling: past, pastFst: true, orphans: true, ctx: ctxSpec{kTip, 0}, name: "sibling-orphans-past-first/c0"},
+			job{pl: at, sibling: past, pastFst: false, orphans: true, ctx: ctxSpec{kTip, bigCache}, name: "sibling-orphans-at-first/cL"})
 	}
 	if r.ReplayPath != "" {
 		var sel []job
